@@ -330,9 +330,9 @@ pub(crate) fn random_case(bytes: &[u8]) -> SchedCase {
 fn core_specs() -> Vec<SetSpec> {
     let call = |f: &str, x: i128| Expr::func(f, Expr::Vec(vec![Expr::reff("id"), Expr::value(x)]));
     let mut fns = BTreeMap::new();
-    fns.insert("fa".to_string(), me::FnSpec { cacheable: true, fail_on: vec![], fail_first: 0 });
-    fns.insert("fb".to_string(), me::FnSpec { cacheable: false, fail_on: vec![], fail_first: 0 });
-    fns.insert("fc".to_string(), me::FnSpec { cacheable: true, fail_on: vec!["[i1001,i2]".into(), "[i1002,i2]".into()], fail_first: 0 });
+    fns.insert("fa".to_string(), me::FnSpec { cacheable: true, fail_on: vec![], fail_first: 0, uncacheable_after: 0 });
+    fns.insert("fb".to_string(), me::FnSpec { cacheable: false, fail_on: vec![], fail_first: 0, uncacheable_after: 0 });
+    fns.insert("fc".to_string(), me::FnSpec { cacheable: true, fail_on: vec!["[i1001,i2]".into(), "[i1002,i2]".into()], fail_first: 0, uncacheable_after: 0 });
     let mk = |rules: Vec<Expr>, suspend: u32| SetSpec {
         rules: rules.into_iter().enumerate().map(|(i, e)| (format!("r{i}"), e)).collect(),
         fns: fns.clone(),
@@ -443,12 +443,79 @@ fn check_serializable_history(f: usize, k: usize) -> Verdict {
     .unwrap_or_else(|_| Err(Issue::new("sched:panic", "history thread panicked")))
 }
 
+// ---- consecutive inputs that compare equal but are distinguishable -------------------------------------------------
+
+/// One ruleset instance (with or without user functions) evaluates a sequence of inputs in which neighbours are equal
+/// under `==` yet different (0.0 / -0.0, d1.0 / d1.00, inside lists and maps); every outcome must be what the
+/// stateless reference gives for that input alone.
+fn check_twin_inputs(i: usize) -> Verdict {
+    let f = |x: f64| Value::Float(x);
+    let sequences: Vec<Vec<Value>> = vec![
+        vec![f(0.0), f(-0.0), f(0.0), f(-0.0)],
+        vec![f(-0.0), f(0.0)],
+        vec![crate::pool::dec(10, 1), crate::pool::dec(100, 2), crate::pool::dec(1, 0), crate::pool::dec(10, 1)],
+        vec![Value::Vec(vec![f(0.0), Value::Int(1)]), Value::Vec(vec![f(-0.0), Value::Int(1)])],
+        vec![crate::pool::map(&[("k", crate::pool::dec(100, 2))]), crate::pool::map(&[("k", crate::pool::dec(1, 0))])],
+        vec![Value::Int(1), Value::Int(1), Value::Int(2), Value::Int(1)],
+    ];
+    let with_functions = i % 2 == 1;
+    let seq = &sequences[(i / 2) % sequences.len()];
+    let x = || Expr::reff("x");
+    let mut rules: Vec<(String, Expr)> = vec![
+        ("same".into(), x()),
+        ("reciprocal".into(), Expr::div(Expr::Value(f(1.0)), x())),
+        ("positive".into(), Expr::gt(Expr::div(Expr::Value(f(1.0)), x()), Expr::Value(f(0.0)))),
+        ("listed".into(), Expr::Vec(vec![x(), Expr::reff("id")])),
+        ("twice".into(), Expr::add(x(), x())),
+    ];
+    let mut fns = BTreeMap::new();
+    if with_functions {
+        fns.insert("fa".to_string(), me::FnSpec { cacheable: true, fail_on: vec![], fail_first: 0, uncacheable_after: 0 });
+        rules.push(("called".into(), Expr::func("fa", Expr::Vec(vec![Expr::reff("id"), x()]))));
+    }
+    let spec = SetSpec { rules, fns, symbols: BTreeMap::new(), suspend: 0 };
+    let built = probe::build(&spec, false);
+    for (step, v) in seq.iter().enumerate() {
+        // the same id throughout: the inputs differ only in the twin value
+        let input = crate::pool::map(&[("id", Value::Int(1001)), ("x", v.clone())]);
+        let got = catch(|| block_on(built.ruleset.evaluate_value(&input)).map(detach).map_err(|e| e.to_string()))
+            .map_err(|p| Issue::new("sched:panic", format!("evaluation panicked: {p}")))?
+            .map_err(|e| Issue::new("sched:twin-inputs", format!("evaluate_value failed as a whole: {e}")))?;
+        for (k, (name, e)) in spec.rules.iter().enumerate() {
+            let want = me::eval_plain_with(e, &input, &spec.fns);
+            let g: Result<Value, reval::Error> = match &got[k].1 {
+                Ok(v) => Ok(v.clone()),
+                Err(_) => Err(reval::Error::InvalidType),
+            };
+            let differs = match (&got[k].1, &want) {
+                (Ok(a), Ok(b)) => !same_value(a, b, true),
+                (Err(_), Err(_)) => false,
+                _ => true,
+            };
+            if differs {
+                return Err(Issue::new(
+                    "sched:twin-inputs",
+                    format!(
+                        "input {step} of the sequence {:?} (one ruleset instance, {} user functions): rule {name} = {} gives {} but for that input alone {}",
+                        seq.iter().map(show_value).collect::<Vec<_>>(),
+                        if with_functions { "with" } else { "without" },
+                        show_expr(e),
+                        me::show_actual(&g),
+                        me::show_model(&want)
+                    ),
+                ));
+            }
+        }
+    }
+    Ok(())
+}
+
 /// specs for many evaluations in flight at once / for one very large evaluation
 fn heavy_specs() -> Vec<(SetSpec, usize)> {
     let call = |f: &str, x: i128| Expr::func(f, Expr::Vec(vec![Expr::reff("id"), Expr::value(x)]));
     let mut fns = BTreeMap::new();
-    fns.insert("fa".to_string(), me::FnSpec { cacheable: true, fail_on: vec![], fail_first: 0 });
-    fns.insert("fb".to_string(), me::FnSpec { cacheable: false, fail_on: vec![], fail_first: 0 });
+    fns.insert("fa".to_string(), me::FnSpec { cacheable: true, fail_on: vec![], fail_first: 0, uncacheable_after: 0 });
+    fns.insert("fb".to_string(), me::FnSpec { cacheable: false, fail_on: vec![], fail_first: 0, uncacheable_after: 0 });
     let nest = |mut e: Expr, depth: usize| {
         for i in 0..depth {
             e = match i % 4 {
@@ -539,7 +606,7 @@ pub fn run(ctx: &Ctx) {
         "Generated: rulesets of call-heavy rules over probes that suspend 0-3 times per call (returning Pending and waking by \
          reference), 1-4 concurrent evaluations of ONE ruleset (each input carries an id that is passed into every probe argument, so \
          invocations are attributable), a generated poll order over the live evaluations, and optionally a point (after the k-th \
-         Pending of one evaluation) at which that evaluation is dropped. Histories of 1-300 evaluate(&T) calls whose input fails to serialize (13 failure positions), all on one thread, followed by a valid nested input. Up to 250 evaluations of deeply nested rules in flight at once, and one evaluation making 300 distinct cacheable calls twice over. Exhaustive core: 4 small rulesets x 2 evaluations x every \
+         Pending of one evaluation) at which that evaluation is dropped. Sequences of inputs that are equal under == yet distinguishable (0.0 / -0.0, d1.0 / d1.00) given to one ruleset instance. Histories of 1-300 evaluate(&T) calls whose input fails to serialize (13 failure positions), all on one thread, followed by a valid nested input. Up to 250 evaluations of deeply nested rules in flight at once, and one evaluation making 300 distinct cacheable calls twice over. Exhaustive core: 4 small rulesets x 2 evaluations x every \
          poll order of 10 binary choices x every drop point 0..5 of either evaluation or none. Oracle: every completed evaluation's \
          outcomes and attributed invocation multiset equal those of the same input run alone to completion with non-suspending \
          probes; an abandoned evaluation's invocations are a prefix of its baseline's; two consecutive baseline runs are identical \
@@ -586,6 +653,18 @@ pub fn run(ctx: &Ctx) {
             })
         })
         .collect();
+    ctx.enumerate(
+        "twin-input-histories",
+        12,
+        true,
+        |i, acc| {
+            acc.cell("history:equal-but-distinguishable-inputs", true);
+            check_twin_inputs(i as usize)
+        },
+        |i| json!({"twin_inputs": i}),
+        "twin-inputs",
+    );
+
     let nfail = failing_inputs().len() as u64;
     let ks: [usize; 4] = [1, 40, 140, ctx.tier.pick(300, 1500)];
     ctx.enumerate(
@@ -615,6 +694,37 @@ pub fn run(ctx: &Ctx) {
             })
         })
         .collect();
+    // identical inputs in flight together
+    let same: Vec<SchedCase> = core_specs()
+        .into_iter()
+        .flat_map(|sp| {
+            [2usize, 3, 8].into_iter().flat_map(move |n| {
+                let sp = sp.clone();
+                [vec![], vec![0u8, 0, 1, 1, 0, 1, 2, 2, 1, 0], vec![1, 0, 0, 0, 1]].into_iter().map(move |order| SchedCase {
+                    spec: SetSpec { suspend: 1 + (n as u32 % 3), ..sp.clone() },
+                    inputs: vec![simple_facts(1); n],
+                    order,
+                    drop: None,
+                    abandoned_before: 0,
+                })
+            })
+        })
+        .collect();
+    ctx.enumerate(
+        "identical-inputs-in-flight",
+        same.len() as u64,
+        true,
+        |i, acc| {
+            acc.cell("identical-inputs", true);
+            if i % 5 == 0 {
+                acc.sample("identical-inputs", || render(&same[i as usize]));
+            }
+            check(&same[i as usize])
+        },
+        |i| same[i as usize].to_json(),
+        "sched",
+    );
+
     ctx.enumerate(
         "many-in-flight",
         heavy.len() as u64,
@@ -698,6 +808,9 @@ pub fn run(ctx: &Ctx) {
 }
 
 pub fn replay(j: &serde_json::Value) -> Option<Verdict> {
+    if let Some(i) = j.get("twin_inputs").and_then(|x| x.as_u64()) {
+        return Some(check_twin_inputs(i as usize));
+    }
     if let Some(a) = j.get("serde_history").and_then(|a| a.as_array()) {
         let (f, k) = (a.first()?.as_u64()? as usize, a.get(1)?.as_u64()? as usize);
         return (f < failing_inputs().len()).then(|| check_serializable_history(f, k));
